@@ -58,6 +58,7 @@ RULES = [
  ('outside of the BMP survives a json save', 'C03', 'value-differs-after-load/json (non-BMP text)'),
  ('unbounded range follows its bounded range in iterative', 'C06', 'differs-after-set_value/unbounded (SUM(A:A) ignored later writes in iterative mode)'),
  ('below an unbounded range does not leave', 'C09', 'retry-returns-a-value/iterative/*/under-unbounded-reference'),
+ ('evaluated to "" is read as ""', 'C08', 'output-differs (the untrimmed xlsx twin was stale): a cached "" read as "no stored result" stopped the reset (C01 mechanism, found by the C08 thorough tier)'),
  ('an array and an error value', 'C13', 'array-formula-member-not-pointwise/array-with-error-valued-scalar'),
 ]
 
